@@ -2,7 +2,7 @@
    serialisation of exactly that member, and the tagged envelope is the serialisation of that map (C01: the digests are
    over the members "as they appear in the envelope"). *)
 Require Import Coq.Strings.String.
-From Verif Require Import Base.Prim Base.PrimFacts Base.Str Cbor.Codec Suit.Py Suit.PyFacts Suit.Ty Suit.Interp Suit.Mono Suit.Digest Suit.Typed Suit.TypedObj.
+From Verif Require Import Base.Prim Base.PrimFacts Base.Str Cbor.Codec Suit.Py Suit.PyFacts Suit.Ty Suit.Interp Suit.Mono Suit.Digest Suit.Typed Suit.TypedObj Suit.Payload.
 Open Scope Z_scope.
 
 Lemma as_pyint_cint i : as_pyint (cint i) = Some i.
@@ -245,6 +245,28 @@ Section Bytes.
   Hypothesis Hsteps : steps_prepare = [1; 2].
   Hypothesis Hnd : NoDup severable_ids.
   Hypothesis Hsev : forall sid, In sid severable_ids -> sid <> 2 /\ sid <> 3.
+  (* the members carried under text keys are maps from names (text) to byte strings *)
+  Hypothesis Hpay : forall e, In e em -> key_id e = -1 \/ key_id e = -2 ->
+    exists pn tn hn, key_ty e = TRef pn /\ lookup pn env = Some (TPayloadMap (TRef tn) (TRef hn)) /\ lookup tn env = Some TTstr /\ lookup hn env = Some THex.
+
+  (* what was a premise of the byte-level theorems: the maps merged from the text-keyed members have no integer keys *)
+  Lemma payloads_text_holds fuel o ents0 ents ai ae mi me :
+    from_obj env hash_names H uuid5 fs json_loads json_dumps severable_ids steps_processed steps_digest_ext fuel (TRef root) o = Ok (VTagged (VKV ents0)) ->
+    find_idx (fun x => key_id x =? 2) em O = Some (ai, ae) -> find_idx (fun x => key_id x =? 3) em O = Some (mi, me) ->
+    (forall p, In p ents -> In p ents0 \/ fst p = mi \/ fst p = ai) ->
+    forall f, payloads_text (to_cbor env f) em ents.
+  Proof.
+    intros Hfo Hai Hmi Hrel f idx v e bb d Hin Hnth Hid Hto Hdec.
+    destruct (find_idx_nth' _ _ _ _ Hai) as (Hna & Hia). destruct (find_idx_nth' _ _ _ _ Hmi) as (Hnm & Him).
+    destruct (Hrel _ Hin) as [Hin0|[Hx|Hx]]; cbn [fst] in *.
+    - destruct (from_obj_envelope_entries env hash_names H uuid5 fs json_loads json_dumps severable_ids steps_processed steps_digest_ext
+                  root n name envn em emb fuel o ents0 Hwfenv Hroot Henv Hfo _ Hin0) as (e' & He' & Hw). cbn [fst snd] in He', Hw.
+      rewrite Hnth in He'. injection He' as <-.
+      destruct (Hpay e (nth_error_In _ _ Hnth) Hid) as (pn & tn & hn & Hkt & Hl1 & Hl2 & Hl3). rewrite Hkt in Hw, Hto.
+      exact (payload_text_keys env pn tn hn Hl1 Hl2 Hl3 f v bb d Hw Hto Hdec).
+    - subst idx. rewrite Hnm in Hnth. injection Hnth as <-. lia.
+    - subst idx. rewrite Hna in Hnth. injection Hnth as <-. lia.
+  Qed.
 
   Theorem create_digest_over_embedded_manifest fuel o out :
     create env hash_names H uuid5 fs json_loads json_dumps severable_ids steps_prepare steps_processed steps_digest_ext fuel o = Ok out ->
@@ -252,22 +274,21 @@ Section Bytes.
       to_cbor env fuel (TRef root) (VTagged (VKV ents)) = Ok out
       /\ kv_get ents ai = Some (VSeq (VUnion j (VSeq [VRaw alg; VRaw (CBytes h)]) :: blocks))
       /\ hash_of hash_names H alg mb = Ok h
-      /\ ((forall f, payloads_text (to_cbor env f) em ents) ->
-          exists c data cm,
+      /\ (exists c data cm,
             dec mb = Ok c /\ dict_get data (cint 3) = Some c /\ dec (ser (CMap data)) = Ok cm /\ out = ser (CTag n cm)).
   Proof.
     intros Hc.
     destruct (create_digests env hash_names H uuid5 fs json_loads json_dumps severable_ids steps_prepare steps_processed steps_digest_ext
                 Hsteps Hnd Hsev fuel o out Hc)
-      as (ents & em' & mm & ai & ae & mi & me & ments & Hout & Hem & Hai & Hmi & Hgm & Hmm & (j & a & blocks & alg & mb & h & Hga & _ & Hmb & Hh) & _ & (ents0 & Hfo & Hnd0)).
+      as (ents & em' & mm & ai & ae & mi & me & ments & Hout & Hem & Hai & Hmi & Hgm & Hmm & (j & a & blocks & alg & mb & h & Hga & _ & Hmb & Hh) & _ & (ents0 & Hfo & Hnd0 & Hrel)).
     exists ents, ai, j, alg, h, blocks, mb. split; [exact Hout|]. split; [exact Hga|]. split; [exact Hh|].
-    intros Hpt.
     assert (Hndents : NoDup (map fst ents)).
     { apply Hnd0. exact (from_obj_envelope_nodup env hash_names H uuid5 fs json_loads json_dumps severable_ids steps_processed steps_digest_ext
                            root n name envn em emb fuel o ents0 Hwfenv Hroot Henv Hfo). }
     assert (Eem : em' = em).
     { unfold envelope_map in Hem. fold root in Hem. rewrite Hroot in Hem. unfold map_of in Hem. rewrite Henv in Hem. injection Hem as <-. reflexivity. }
     subst em'. destruct (find_idx_nth' _ _ _ _ Hmi) as (Hnth & Hid).
+    pose proof (payloads_text_holds fuel o ents0 ents ai ae mi me Hfo Hai Hmi Hrel) as Hpt.
     destruct (envelope_member_embedded env root envn name n em emb Hroot Henv Hids fuel ents out mi (VKV ments) me Hout Hndents Hpt
                 (kv_get_in _ _ _ Hgm) Hnth ltac:(lia) ltac:(lia)) as (bb & c & data & cm & Hbb & Hc' & Hg & Hcm & Heq).
     rewrite Hmb in Hbb. injection Hbb as <-. assert (key_id me = 3) as Hk by lia. rewrite Hk in Hg.
@@ -286,22 +307,22 @@ Section Bytes.
            find_idx (fun x => key_id x =? sid) em O = Some (ei, ee) -> kv_get ents ei = Some ev -> sid <> -1 -> sid <> -2 ->
            exists j alg data h,
              dv = VUnion j (VSeq [VRaw alg; VRaw (CBytes h)]) /\ hash_of hash_names H alg data = Ok h
-             /\ ((forall f, payloads_text (to_cbor env f) em ents) ->
-                 exists c dmap cm, dec data = Ok c /\ dict_get dmap (cint sid) = Some c /\ dec (ser (CMap dmap)) = Ok cm /\ out = ser (CTag n cm)).
+             /\ (exists c dmap cm, dec data = Ok c /\ dict_get dmap (cint sid) = Some c /\ dec (ser (CMap dmap)) = Ok cm /\ out = ser (CTag n cm)).
   Proof.
     intros Hc.
     destruct (create_digests env hash_names H uuid5 fs json_loads json_dumps severable_ids steps_prepare steps_processed steps_digest_ext
                 Hsteps Hnd Hsev fuel o out Hc)
-      as (ents & em' & mm & ai & ae & mi & me & ments & Hout & Hem & Hai & Hmi & Hgm & Hmm & _ & Hsevs & (ents0 & Hfo & Hnd0)).
+      as (ents & em' & mm & ai & ae & mi & me & ments & Hout & Hem & Hai & Hmi & Hgm & Hmm & _ & Hsevs & (ents0 & Hfo & Hnd0 & Hrel)).
     assert (Hndents : NoDup (map fst ents)).
     { apply Hnd0. exact (from_obj_envelope_nodup env hash_names H uuid5 fs json_loads json_dumps severable_ids steps_processed steps_digest_ext
                            root n name envn em emb fuel o ents0 Hwfenv Hroot Henv Hfo). }
     assert (Eem : em' = em).
     { unfold envelope_map in Hem. fold root in Hem. rewrite Hroot in Hem. unfold map_of in Hem. rewrite Henv in Hem. injection Hem as <-. reflexivity. }
-    subst em'. exists ents, mm, mi, me, ments. split; [exact Hout|]. split; [exact Hmi|]. split; [exact Hgm|]. split; [exact Hmm|].
+    subst em'. pose proof (payloads_text_holds fuel o ents0 ents ai ae mi me Hfo Hai Hmi Hrel) as Hpt.
+    exists ents, mm, mi, me, ments. split; [exact Hout|]. split; [exact Hmi|]. split; [exact Hgm|]. split; [exact Hmm|].
     intros sid si se ai' dv at_ ei ee ev Hin Hsi Hgs Hat Hisd Hei Hev Hn1 Hn2.
     destruct (Hsevs sid si se ai' dv at_ ei ee ev Hin Hsi Hgs Hat Hisd Hei Hev) as (j & alg & data & h & -> & Hdata & Hh).
-    exists j, alg, data, h. split; [reflexivity|]. split; [exact Hh|]. intros Hpt.
+    exists j, alg, data, h. split; [reflexivity|]. split; [exact Hh|].
     destruct (find_idx_nth' _ _ _ _ Hei) as (Hnth & Hid).
     destruct (envelope_member_embedded env root envn name n em emb Hroot Henv Hids fuel ents out ei ev ee Hout Hndents Hpt
                 (kv_get_in _ _ _ Hev) Hnth ltac:(lia) ltac:(lia)) as (bb & c & dmap & cm & Hbb & Hc' & Hg & Hcm & Heq).
